@@ -1,5 +1,6 @@
 import FxVerif.Proofs.C01
 import FxVerif.Proofs.C01Gen
+import FxVerif.Proofs.C01R4
 /-!
 # C01 — bridge events take effect exactly once, strictly in event-nonce order
 
@@ -508,5 +509,80 @@ example : (greach witnessParams (restartDemo.take 8)).pending = [] ∧ (greach w
 example : (gstep (greach witnessParams (restartDemo.take 8)) (.op (.claim 101 101 2 1 .other 1002))).2 = .nonContiguous := by decide
 example : (gstep (greach witnessParams (restartDemo.take 9)) (.op (.exec 1 .ok .nil))).2 = .notFound := by decide
 example : (greach witnessParams restartDemo).lastObserved = 2 ∧ (greach witnessParams restartDemo).observedLog = [(1, 0), (2, 0)] := by decide
+
+
+/-! ## round 4 — claims whose handler panics; claims inside signed transactions
+
+All six claim types are now voted and executed by the harness.  Two of the handlers that run AT OBSERVATION TIME can panic:
+`OutgoingTxBatchExecuted` (batch not in the store) and `UpdateOracleSetExecuted` (claim contradicts the stored oracle set of
+its nonce).  The panic leaves `processAttestation`'s cache context and the whole claim message: `Kind.panics`. -/
+
+/-- a claim whose handler would panic NEVER takes effect: whatever the votes and powers, it moves neither the last observed
+nonce nor the observation log nor the parked claims (either it is an ordinary vote below the bar, or the message is undone) -/
+theorem panicking_handler_never_observes (s : State) (w i n h : Nat) (ms : List Nat) (e : Nat) :
+    (step s (.claim w i n h (.panics ms) e)).1.lastObserved = s.lastObserved ∧
+    (step s (.claim w i n h (.panics ms) e)).1.observedLog = s.observedLog ∧
+    (step s (.claim w i n h (.panics ms) e)).1.pending = s.pending := by
+  simp only [step]
+  by_cases hok : (claimStep s w i n h (.panics ms)).2 = .ok
+  · obtain ⟨a, hga, hno⟩ := panics_not_ok_or_not_observing s w i n h ms hok
+    obtain ⟨a', _, hga', _, _, _, _, _, heq⟩ := claim_ok s w i n h (.panics ms) hok
+    rw [hga] at hga'; cases hga'
+    rw [heq]
+    exact attest_not_observing s a n h _ hno
+  · rw [claim_not_ok s w i n h _ hok]; exact ⟨rfl, rfl, rfl⟩
+
+/-- a claim message whose handler panicked leaves NO trace: not the vote, not the per-oracle nonce (the oracle may vote for
+this nonce again, e.g. for a competing claim), not the observation -/
+theorem panicked_claim_leaves_no_trace (s : State) (w i n h : Nat) (k : Kind) (e : Nat)
+    (hp : (step s (.claim w i n h k e)).2 = .panicked) : (step s (.claim w i n h k e)).1 = s := by
+  simp only [step] at hp ⊢
+  exact claim_not_ok s w i n h k (by rw [hp]; decide)
+
+/-- only a claim marked `panics` can end that way, and only when its vote would have made the event take effect -/
+theorem panicked_only_at_observation (s : State) (w i n h : Nat) (k : Kind) (e : Nat)
+    (hp : (step s (.claim w i n h k e)).2 = .panicked) :
+    ∃ ms a, k = .panics ms ∧ s.byBridger.get (voter w i) = some a ∧ observesNow s a n h = true := by
+  simp only [step] at hp
+  unfold claimStep at hp
+  repeat' split at hp
+  all_goals first | (simp at hp; done) | skip
+  rename_i _ _ a hga _ _ _ _ _ _ hpn
+  cases k with
+  | panics ms =>
+    refine ⟨ms, a, rfl, hga, ?_⟩
+    have hr : observeRunsHandler = true := by decide
+    simpa [handlerPanics, hr] using hpn
+  | pending => simp [handlerPanics] at hpn
+  | other => simp [handlerPanics] at hpn
+  | oracleSet ms => simp [handlerPanics] at hpn
+
+/-- a claim inside a signed transaction either never reaches the message server (and nothing happens) or is exactly the
+in-process claim: every theorem about histories of `claim` operations covers histories of claim TRANSACTIONS -/
+theorem tx_claim_is_claim_or_nothing (s : State) (w i n h : Nat) (k : Kind) :
+    txClaimStep s w i n h k = (s, .undeliverable) ∨ txClaimStep s w i n h k = claimStep s w i n h k :=
+  txClaim_cases s w i n h k
+
+theorem lastObserved_tx_step (s : State) (w i n h : Nat) (k : Kind) :
+    (txClaimStep s w i n h k).1.lastObserved = s.lastObserved ∨ (txClaimStep s w i n h k).1.lastObserved = s.lastObserved + 1 := by
+  rcases tx_claim_is_claim_or_nothing s w i n h k with e | e
+  · rw [e]; exact Or.inl rfl
+  · rw [e]; exact lastObserved_step s (.claim w i n h k 0)
+
+/-! ### non-vacuity -/
+
+/-- two oracles of 50 each: the first vote for a panicking claim is an ordinary vote, the second would cross the bar and is
+undone as a whole; the competing (sound) claim is then observed with the same two voters -/
+def panicDemo : List Op :=
+  let u : Nat := powerReduction
+  [ .gov [1, 2] true, .bond 1 101 201 (50 * u) true, .bond 2 102 202 (50 * u) true,
+    .claim 101 101 1 0 (.panics []) 1001,     -- 50 < 66: vote stored
+    .claim 102 102 1 0 (.panics []) 1001,     -- would observe: handler panics, message undone
+    .claim 102 102 1 1 .other 1001 ]          -- oracle 2 is free to vote for the competing claim
+
+example : (step (reach witnessParams (panicDemo.take 4)) (.claim 102 102 1 0 (.panics []) 1001)).2 = .panicked := by decide
+example : (reach witnessParams (panicDemo.take 5)).atts.map (fun a => (a.nonce, a.hash, a.votes, a.observed)) = [(1, 0, [1], false)] := by decide
+example : (reach witnessParams panicDemo).lastObserved = 0 ∧ (reach witnessParams panicDemo).lastNonce = [(1, 1), (2, 1)] := by decide
+example : (txClaimStep (reach witnessParams (panicDemo.take 3)) 101 101 1 0 .other).2 = .undeliverable := by decide
 
 end FxVerif.Props.C01
